@@ -32,7 +32,9 @@ def main():
                 'plus P4.P5 = octave compositions and the two tables; non-trivial = distinct transposition records whose interval '
                 'is not the unison')
     run.add_tlc(tlc.run_tlc('MC_Pitch', workers=8, timeout=900))
-    recs = [a.replay_case['case']['record']] if a.replay_case else pitchrec.record_tables() + pitchrec.record_transpose()
+    recs = pitchrec.record_tables() + pitchrec.record_transpose()
+    if a.replay_case:
+        recs = flat.fresh_record(recs, a.replay_case['case']['record'], ('op', 'l', 'a', 'o', 'iv', 'up', 'name'))
     if not a.replay_case:
         def corrupt(rs):
             i = next(i for i, r in enumerate(rs) if r['op'] == 'transpose' and r['ok'] and r['iv'] == 'M2' and r['up'])
